@@ -220,11 +220,11 @@ pub fn run(ctx: &Ctx) -> i32 {
     let kb = ctx.tier.pick(7u32, 11u32);
     let g = Group { name: "enum-loss", cases: 6 * 2 * (1u64 << kb), budget_s: 1e9, exhaustive: true };
     run_group(ctx, &mut rep, &g, |idx, _, trace| enum_case(idx, kb, Lane::Null, trace));
-    let g = Group { name: "random-null", cases: ctx.tier.pick(1500, 120_000), budget_s: ctx.tier.pick(45.0, 1200.0), exhaustive: false };
+    let g = Group { name: "random-null", cases: ctx.tier.pick(1500, 120_000), budget_s: ctx.tier.pick(45.0, 720.0), exhaustive: false };
     run_group(ctx, &mut rep, &g, |_, seed, trace| random_case(seed, Lane::Null, trace));
     #[cfg(feature = "real")]
     {
-        let g = Group { name: "random-real", cases: ctx.tier.pick(100, 5000), budget_s: ctx.tier.pick(20.0, 300.0), exhaustive: false };
+        let g = Group { name: "random-real", cases: ctx.tier.pick(100, 5000), budget_s: ctx.tier.pick(20.0, 180.0), exhaustive: false };
         run_group(ctx, &mut rep, &g, |_, seed, trace| random_case(seed, Lane::Real, trace));
     }
     finish(
